@@ -74,6 +74,10 @@ ObsCands == R.hascands = 1 =>
     /\ logged \subseteq (MustHave \cup MayHave)                             \* never the all-empty one, nothing above the cut
     /\ \A k \in 1..Len(R.cands) : Near(R.cands[k][2], SumCost(I, CandTuple(R.cands[k])), R.tol)
 
+\* fast alignment: never cheaper than the best alignment; equal when the window covers everything
+ObsFastGE == (R.mode = "partition" /\ R.fastbest >= 0) => AlCost(I, Al) >= R.fastbest - R.tol * (NT + 1)
+ObsFastEq == (R.mode = "partition" /\ R.fastbest >= 0 /\ R.covering = 1) => Near(AlCost(I, Al), R.fastbest, R.tol * (NT + 1))
+
 ObsBackend == R.backend = R.wantbackend
 ObsModelOpt == R.modelopt >= 0 => Near(AlCost(I, Al), R.modelopt, R.tol * NT)      \* TLC's own optimum for a TLC-generated instance
 
@@ -117,6 +121,8 @@ Verdicts ==
         /\ Judge("ObsSingleWithEmpty", ObsSingleWithEmpty)
         /\ Judge("ObsSingleOtherThanKnown", ObsSingleOtherThanKnown)
         /\ Judge("ObsSoftLE", ObsSoftLE)
+        /\ Judge("ObsFastGE", ObsFastGE)
+        /\ Judge("ObsFastEq", ObsFastEq)
         /\ Judge("ObsOrderFree", ObsOrderFree)
         /\ Judge("ObsCands", ObsCands)
         /\ Judge("ObsBackend", ObsBackend)
